@@ -144,12 +144,94 @@ PROPS["C11"] = dict(
 )
 
 PROPS["C01"] = dict(
-    title="Publish reaches exactly the subscribed handlers, once each, in order",
+    title='Publish reaches exactly the subscribed handlers, once each, in order',
     theorems="Properties/C01.v",
-    proof_files=["Bus/BusModel.v", "Properties/C01.v"],
-    suites=[dict(name="busseq", mod="core", family="busseq", corr="Corr.CorrBus", check="check_bus_agree", shard=25),
-            dict(name="buscon", mod="core", family="buscon", corr="Corr.CorrBus", check="check_bus_agree", shard=25)],
-    level_text="TODO", level_note="TODO", rule="TODO",
+    proof_files=["Bus/BusModel.v", "Bus/BusRun.v", "Bus/BusInv.v", "Properties/C01.v"],
+    suites=[dict(name="bus01", mod="core", family="bus01", corr="Corr.BusOracle", check="check_bus", shard=25), dict(name="busseq", mod="core", family="busseq", corr="Corr.BusOracle", check="check_bus", shard=25)],
+    level_text="Proved in Coq on the small-step model, for every state/program/routing function: the snapshot step queues exactly the registrations of the published type at that step, in subscription order, each once, never another type's; the per-registration decisions (filter, once-claim, cancellation) are exact; Subscribe appends one registration to its own type only; Unsubscribe removes exactly the first registration of the function or reports not-found and changes nothing; Clear empties exactly its type; each shard step of ClearAll empties exactly the types routed there, for ANY routing; HasHandlers/HandlerCount return the registry's size. Re-entrant calls are ordinary later steps. The model is tied to event_bus.go by replaying controller-driven runs of random re-entrant programs over up to 40 event types (> 32 shards), all option combinations and any-typed publishes; an oracle with its own flat registry judges every observed run (exact snapshot membership, order of sync handlers, filters, exactly-once, count/has results, final counts).",
+    level_note='Trusted: Coq kernel + vm_compute; the hand-written small-step model of event_bus.go / persistEvent (flat registry; sync.Mutex, RWMutex, WaitGroup, atomic CAS, goroutine creation and recover are modelled as atomic micro-steps); the controller harness (parks goroutines at user-code callbacks, reads goroutine states from runtime.Stack) and the replay of its log on the model (Bus/BusRun.v); the oracle Corr/BusOracle.v; interleavings strictly inside bus code are not forced by the controller.',
+    rule='cases = seeded random programs (threads, handler/filter/hook bodies that call back into the bus, options) run on the real bus under the controller with a seeded random schedule; every run is replayed on the Coq model along the controller log and judged by the oracle; directed witness programs run first; C01: one goroutine, 2-5 or 33-40 event types, all Once/Async/Sequential/filter combinations, SubscribeContext, duplicate functions, bodies that subscribe/unsubscribe/clear/publish to depth 3; non-trivial = every case (each has >= 1 publish reaching a handler or a registry query); distinct = distinct program+schedule',
+)
+PROPS["C02"] = dict(
+    title='Subscribe, unsubscribe and publish stay consistent under every interleaving',
+    theorems="Properties/C02.v",
+    proof_files=["Bus/BusModel.v", "Bus/BusRun.v", "Bus/BusInv.v", "Properties/C02.v"],
+    suites=[dict(name="bus02", mod="core", family="bus02", corr="Corr.BusOracle", check="check_bus", shard=25), dict(name="buscon", mod="core", family="buscon", corr="Corr.BusOracle", check="check_bus", shard=25)],
+    level_text="Proved in Coq for EVERY schedule of every program (induction over micro-steps): registration identities within a type are unique and never reused (no subscription duplicated, none resurrected); every registry operation and the publish snapshot are single atomic micro-steps with exact effect, so each takes effect at one point between call and return. The must-receive / never-receive / at-most-once / final-count clauses are decided on observed runs by the oracle, which linearises the controller's log, keeps its own flat registry and checks snapshot membership, exactly-once delivery, completeness for live contexts and the final HandlerCount. Tied to the code by controller-driven runs of 2-4 goroutines on 1-3 shared types.",
+    level_note='Trusted: Coq kernel + vm_compute; the hand-written small-step model of event_bus.go / persistEvent (flat registry; sync.Mutex, RWMutex, WaitGroup, atomic CAS, goroutine creation and recover are modelled as atomic micro-steps); the controller harness (parks goroutines at user-code callbacks, reads goroutine states from runtime.Stack) and the replay of its log on the model (Bus/BusRun.v); the oracle Corr/BusOracle.v; interleavings strictly inside bus code are not forced by the controller.',
+    rule='cases = seeded random programs (threads, handler/filter/hook bodies that call back into the bus, options) run on the real bus under the controller with a seeded random schedule; every run is replayed on the Coq model along the controller log and judged by the oracle; directed witness programs run first; C02: 2-4 goroutines x 2-7 operations on 1-3 shared types, random control-point interleavings; non-trivial = every case; distinct = distinct program+schedule',
+)
+PROPS["C04"] = dict(
+    title='A Once handler fires at most once, and exactly once when eligible',
+    theorems="Properties/C04.v",
+    proof_files=["Bus/BusModel.v", "Bus/BusRun.v", "Bus/BusInv.v", "Properties/C04.v"],
+    suites=[dict(name="bus04", mod="core", family="bus04", corr="Corr.BusOracle", check="check_bus", shard=25), dict(name="buscon", mod="core", family="buscon", corr="Corr.BusOracle", check="check_bus", shard=25)],
+    level_text="Proved in Coq for EVERY schedule of every program: the number of entries into a Once registration over the whole run is <= 1, and an entry implies its flag was claimed (invariant: entries + deliveries in flight <= claimed flag, preserved by every micro-step incl. panics and async spawns); the claim is reached only after the filter accepted and with a live context, so filtered-out or already-cancelled publishes do not consume it. 'Exactly once when eligible' (liveness) is decided on observed runs by the oracle. Tied to the code by controller-driven runs with 1-3 concurrent publishers, sync/async Once handlers, filters, cancelled contexts.",
+    level_note='Trusted: Coq kernel + vm_compute; the hand-written small-step model of event_bus.go / persistEvent (flat registry; sync.Mutex, RWMutex, WaitGroup, atomic CAS, goroutine creation and recover are modelled as atomic micro-steps); the controller harness (parks goroutines at user-code callbacks, reads goroutine states from runtime.Stack) and the replay of its log on the model (Bus/BusRun.v); the oracle Corr/BusOracle.v; interleavings strictly inside bus code are not forced by the controller.',
+    rule='cases = seeded random programs (threads, handler/filter/hook bodies that call back into the bus, options) run on the real bus under the controller with a seeded random schedule; every run is replayed on the Coq model along the controller log and judged by the oracle; directed witness programs run first; C04: 70% Once handlers, half the publishes on cancellable contexts, 1-3 publishers; directed: cancelled-then-eligible, filtered-then-eligible; non-trivial = every case; distinct = distinct program+schedule',
+)
+PROPS["C05"] = dict(
+    title='A panicking handler never harms the publisher or the other handlers',
+    theorems="Properties/C05.v",
+    proof_files=["Bus/BusModel.v", "Bus/BusRun.v", "Bus/BusInv.v", "Properties/C05.v"],
+    suites=[dict(name="bus05", mod="core", family="bus05", corr="Corr.BusOracle", check="check_bus", shard=25), dict(name="busseq", mod="core", family="busseq", corr="Corr.BusOracle", check="check_bus", shard=25)],
+    level_text="Proved in Coq: a panic anywhere inside a handler invocation unwinds exactly to that invocation's deferred recover; everything queued behind it (remaining handlers of the publish, once-removal, after hooks, the caller's continuation) is kept; registry, once-flags, wait counter and locks are untouched by the unwinding; then the Sequential lock is released, the panic handler runs exactly once (if set), the completion callback carries the error, an async delivery reaches wg.Done; the wait-counter and lock invariants (C06, C07) hold on every schedule of panicking programs, so Wait returns and a panicking Sequential handler can run again. Tied to the code by controller-driven runs with 60% panicking bodies of every kind/option at random positions; the harness isolates crashes as labels.",
+    level_note='Trusted: Coq kernel + vm_compute; the hand-written small-step model of event_bus.go / persistEvent (flat registry; sync.Mutex, RWMutex, WaitGroup, atomic CAS, goroutine creation and recover are modelled as atomic micro-steps); the controller harness (parks goroutines at user-code callbacks, reads goroutine states from runtime.Stack) and the replay of its log on the model (Bus/BusRun.v); the oracle Corr/BusOracle.v; interleavings strictly inside bus code are not forced by the controller.',
+    rule='cases = seeded random programs (threads, handler/filter/hook bodies that call back into the bus, options) run on the real bus under the controller with a seeded random schedule; every run is replayed on the Coq model along the controller log and judged by the oracle; directed witness programs run first; C05: 1-2 goroutines, 60% of handler bodies end in a panic, all option combinations, repeated publishes, Wait; non-trivial = every case; distinct = distinct program+schedule',
+)
+PROPS["C06"] = dict(
+    title='Wait and Shutdown return only after all asynchronous work has finished',
+    theorems="Properties/C06.v",
+    proof_files=["Bus/BusModel.v", "Bus/BusRun.v", "Bus/BusInv.v", "Properties/C06.v"],
+    suites=[dict(name="bus06", mod="core", family="bus06", corr="Corr.BusOracle", check="check06", shard=25), dict(name="buscon", mod="core", family="buscon", corr="Corr.BusOracle", check="check06", shard=25)],
+    level_text="Proved in Coq for EVERY schedule of every program: the wait counter equals the number of spawned, unfinished async deliveries (the increment is part of the publisher's step); every delivery goroutine carries weight 1 until its wg.Done; Wait - and the goroutine Shutdown waits on - can proceed only when every delivery spawned so far, at any nesting depth, has finished; the store is closed only in the step in which Shutdown returns nil, never on the context-error branch. Tied to the code by controller-driven runs with nested async publishes, Wait at many positions, Shutdown with live and cancelled contexts, a store recording Close.",
+    level_note='Trusted: Coq kernel + vm_compute; the hand-written small-step model of event_bus.go / persistEvent (flat registry; sync.Mutex, RWMutex, WaitGroup, atomic CAS, goroutine creation and recover are modelled as atomic micro-steps); the controller harness (parks goroutines at user-code callbacks, reads goroutine states from runtime.Stack) and the replay of its log on the model (Bus/BusRun.v); the oracle Corr/BusOracle.v; interleavings strictly inside bus code are not forced by the controller.',
+    rule='cases = seeded random programs (threads, handler/filter/hook bodies that call back into the bus, options) run on the real bus under the controller with a seeded random schedule; every run is replayed on the Coq model along the controller log and judged by the oracle; directed witness programs run first; C06: 70% async handlers, handlers publishing further async work, Wait inside and at the end of threads, Shutdown with live/cancelled contexts on persistent buses; non-trivial = every case; distinct = distinct program+schedule',
+)
+PROPS["C07"] = dict(
+    title='Sequential handlers never overlap and process events in publish order',
+    theorems="Properties/C07.v",
+    proof_files=["Bus/BusModel.v", "Bus/BusRun.v", "Bus/BusInv.v", "Properties/C07.v"],
+    suites=[dict(name="bus07", mod="core", family="bus07", corr="Corr.BusOracle", check="check07", shard=25), dict(name="buscon", mod="core", family="buscon", corr="Corr.BusOracle", check="check07", shard=25)],
+    level_text="Proved in Coq for EVERY schedule of every program: two different actors never hold the lock of the same Sequential registration, and an actor is inside such a handler's body only while holding it (lock-discipline invariant over micro-steps, incl. panics and pending calls). The ordering clause for Async+Sequential handlers is REFUTED on the faithful model (theorem C07_async_order_refuted, a 2-event schedule) and reproduced on the real code by the controller: known finding. Exactly-once delivery is C01/C02. Tied to the code by controller-driven runs with sync/async Sequential handlers and 1-3 publishers; the harness itself flags overlapping invocations.",
+    level_note='Trusted: Coq kernel + vm_compute; the hand-written small-step model of event_bus.go / persistEvent (flat registry; sync.Mutex, RWMutex, WaitGroup, atomic CAS, goroutine creation and recover are modelled as atomic micro-steps); the controller harness (parks goroutines at user-code callbacks, reads goroutine states from runtime.Stack) and the replay of its log on the model (Bus/BusRun.v); the oracle Corr/BusOracle.v; interleavings strictly inside bus code are not forced by the controller.',
+    rule='cases = seeded random programs (threads, handler/filter/hook bodies that call back into the bus, options) run on the real bus under the controller with a seeded random schedule; every run is replayed on the Coq model along the controller log and judged by the oracle; directed witness programs run first; C07: 80% Sequential, 60% async, observability on in half the cases so that async deliveries can be held before the lock; directed: the 2-event reordering; non-trivial = every case; distinct = distinct program+schedule',
+)
+PROPS["C08"] = dict(
+    title='Cancellation, context propagation and publish hooks behave predictably',
+    theorems="Properties/C08.v",
+    proof_files=["Bus/BusModel.v", "Bus/BusRun.v", "Bus/BusInv.v", "Properties/C08.v"],
+    suites=[dict(name="bus08", mod="core", family="bus08", corr="Corr.BusOracle", check="check_bus", shard=25), dict(name="busseq", mod="core", family="busseq", corr="Corr.BusOracle", check="check_bus", shard=25)],
+    level_text='Proved in Coq: every publish runs observability start, legacy before hook, context-aware before slot, THEN the snapshot, and after the last queued handler the once-removal, legacy after hook, context-aware after hook, observability complete - each exactly once, with or without handlers; a cancelled context stops sync handlers at the last decision before the call, never claims a Once handler, reduces an async delivery to wg.Done; context-aware handlers are entered with the publish context. Tied to the code by controller-driven runs over all hook subsets, sync/async/context-aware mixes, cancellation before the call or by any handler/hook/filter body.',
+    level_note='Trusted: Coq kernel + vm_compute; the hand-written small-step model of event_bus.go / persistEvent (flat registry; sync.Mutex, RWMutex, WaitGroup, atomic CAS, goroutine creation and recover are modelled as atomic micro-steps); the controller harness (parks goroutines at user-code callbacks, reads goroutine states from runtime.Stack) and the replay of its log on the model (Bus/BusRun.v); the oracle Corr/BusOracle.v; interleavings strictly inside bus code are not forced by the controller.',
+    rule='cases = seeded random programs (threads, handler/filter/hook bodies that call back into the bus, options) run on the real bus under the controller with a seeded random schedule; every run is replayed on the Coq model along the controller log and judged by the oracle; directed witness programs run first; C08: one goroutine, every subset of the four hook slots, 70% of publishes on cancellable contexts, cancel actions in handler/hook/filter bodies; non-trivial = every case; distinct = distinct program+schedule',
+)
+PROPS["C09"] = dict(
+    title='Every publish on a persistent bus is recorded once, before it is delivered',
+    theorems="Properties/C09.v",
+    proof_files=["Bus/BusModel.v", "Bus/BusRun.v", "Bus/BusInv.v", "Properties/C09.v"],
+    suites=[dict(name="bus09", mod="core", family="bus09", corr="Corr.BusOracle", check="check_bus", shard=25), dict(name="bus13", mod="core", family="bus13", corr="Corr.BusOracle", check="check_bus", shard=25)],
+    level_text='Proved in Coq: for EVERY option list containing WithStore (any order, any other hooks, hooks given after the store) the bus has a store and its before-slot contains the persistence step; exactly one such step when WithStore occurs once; the before-slot runs before the snapshot, so no handler of the publish runs before the record is stored; over every schedule the log grows only by the append step, one record per successful append, in append order. Tied to the code by controller-driven runs over random option orders, 1-3 concurrent publishers, handlers that look the record up in the store on entry.',
+    level_note='Trusted: Coq kernel + vm_compute; the hand-written small-step model of event_bus.go / persistEvent (flat registry; sync.Mutex, RWMutex, WaitGroup, atomic CAS, goroutine creation and recover are modelled as atomic micro-steps); the controller harness (parks goroutines at user-code callbacks, reads goroutine states from runtime.Stack) and the replay of its log on the model (Bus/BusRun.v); the oracle Corr/BusOracle.v; interleavings strictly inside bus code are not forced by the controller.',
+    rule='cases = seeded random programs (threads, handler/filter/hook bodies that call back into the bus, options) run on the real bus under the controller with a seeded random schedule; every run is replayed on the Coq model along the controller log and judged by the oracle; directed witness programs run first; C09: persistent buses, options in random order incl. hooks after the store, 1-3 publishers; directed: WithStore before WithBeforePublishContext; non-trivial = every case; distinct = distinct program+schedule',
+)
+PROPS["C13"] = dict(
+    title='Persistence failures are contained, reported once and never corrupt the log',
+    theorems="Properties/C13.v",
+    proof_files=["Bus/BusModel.v", "Bus/BusRun.v", "Bus/BusInv.v", "Properties/C13.v"],
+    suites=[dict(name="bus13", mod="core", family="bus13", corr="Corr.BusOracle", check="check_bus", shard=25), dict(name="bus09", mod="core", family="bus09", corr="Corr.BusOracle", check="check_bus", shard=25)],
+    level_text='Proved in Coq: an unencodable event makes no append attempt and reports once; a rejected or timed-out append leaves log and lastOffset exactly as they were, reports exactly once, releases the store lock; a successful one adds exactly one record; what follows (snapshot, delivery) is untouched in all cases; over every schedule the log is append-only. Tied to the code by controller-driven runs with random fault patterns (reject / timeout / two kinds of unencodable events incl. a MarshalJSON returning invalid JSON), first-publish and consecutive failures.',
+    level_note='Trusted: Coq kernel + vm_compute; the hand-written small-step model of event_bus.go / persistEvent (flat registry; sync.Mutex, RWMutex, WaitGroup, atomic CAS, goroutine creation and recover are modelled as atomic micro-steps); the controller harness (parks goroutines at user-code callbacks, reads goroutine states from runtime.Stack) and the replay of its log on the model (Bus/BusRun.v); the oracle Corr/BusOracle.v; interleavings strictly inside bus code are not forced by the controller.',
+    rule='cases = seeded random programs (threads, handler/filter/hook bodies that call back into the bus, options) run on the real bus under the controller with a seeded random schedule; every run is replayed on the Coq model along the controller log and judged by the oracle; directed witness programs run first; C13: persistent buses, each published value mapped to ok/reject/timeout/unencodable with probability 3/8 of a fault; non-trivial = every case; distinct = distinct program+schedule',
+)
+PROPS["C20"] = dict(
+    title='Observability callbacks are balanced, nested and truthful',
+    theorems="Properties/C20.v",
+    proof_files=["Bus/BusModel.v", "Bus/BusRun.v", "Bus/BusInv.v", "Properties/C20.v"],
+    suites=[dict(name="bus20", mod="core", family="bus20", corr="Corr.BusOracle", check="check_bus", shard=25), dict(name="buscon", mod="core", family="buscon", corr="Corr.BusOracle", check="check_bus", shard=25)],
+    level_text="Proved in Coq (bus half): a publish has one start (first) and one complete (last queued by its snapshot); every handler call is opened by the start callback and - normal return or panic anywhere inside - followed by exactly one complete carrying an error exactly when it panicked; skipped handlers have neither; one persist pair per append attempt with the error flag exactly when it failed, none for unencodable events. The oracle checks on every observed run that the callbacks are well bracketed per goroutine and that each complete received the context its start returned (the harness threads tokens through the contexts). The OpenTelemetry adapter half is checked against the SDK's span recorder and manual reader (suite otel).",
+    level_note='Trusted: Coq kernel + vm_compute; the hand-written small-step model of event_bus.go / persistEvent (flat registry; sync.Mutex, RWMutex, WaitGroup, atomic CAS, goroutine creation and recover are modelled as atomic micro-steps); the controller harness (parks goroutines at user-code callbacks, reads goroutine states from runtime.Stack) and the replay of its log on the model (Bus/BusRun.v); the oracle Corr/BusOracle.v; interleavings strictly inside bus code are not forced by the controller.',
+    rule='cases = seeded random programs (threads, handler/filter/hook bodies that call back into the bus, options) run on the real bus under the controller with a seeded random schedule; every run is replayed on the Coq model along the controller log and judged by the oracle; directed witness programs run first; C20: observability always on, mixes of sync/async/once/sequential/filtered/panicking handlers, cancelled contexts, succeeding and failing persistence; non-trivial = every case; distinct = distinct program+schedule',
 )
 
 NOT_CLAIMED = {p: "check not built yet in this session (work in progress; planned per DESIGN.md section 6)" for p in
